@@ -1155,3 +1155,65 @@ Lemma QA_idle_C : forall h sp d s, QA h sp d s -> sstep_C (bside d s) = bside d 
 Proof. intros h sp d s [(_ & _ & _ & _ & E5 & E6 & _) _ _ _ _ _ _ _]. unfold sstep_C. rewrite E6, E5. reflexivity. Qed.
 Lemma QA_idle_X : forall h sp d s, QA h sp d s -> sstep_X (bside d s) = bside d s.
 Proof. intros h sp d s [(_ & _ & _ & _ & _ & _ & E7 & E8 & _) _ _ _ _ _ _ _]. unfold sstep_X. rewrite E8, E7. reflexivity. Qed.
+
+Lemma QA_frame : forall h sp d s s',
+  bside d s' = bside d s -> b_apc s' = b_apc s -> QA h sp d s -> QA h sp d s'.
+Proof. intros h sp d s s' E1 E2 []. constructor; rewrite ?E1, ?E2; auto. Qed.
+
+Lemma bdone_bupd : forall d f s, bdone (bupd d f s) = bdone s.
+Proof. intros [] f s; reflexivity. Qed.
+
+Lemma QInv_side_step : forall hi ho spi spo (f : side -> side) d s,
+  (forall h sp x, QB h sp x -> QB h sp (f x)) ->
+  (forall h sp d' s', QA h sp d' s' -> f (bside d' s') = bside d' s') ->
+  QInv hi ho spi spo s -> QInv hi ho spi spo (bupd d f s).
+Proof.
+  intros hi ho spi spo f d s HB HA H. unfold QInv in *. rewrite bdone_bupd.
+  destruct (bdone s).
+  - destruct H as (H1 & H2). destruct d; cbn; split; auto.
+  - destruct H as (H1 & H2).
+    assert (E : bupd d f s = s).
+    { apply bupd_id. destruct d; [apply (HA _ _ _ _ H1)|apply (HA _ _ _ _ H2)]. }
+    rewrite E. split; auto.
+Qed.
+
+Lemma QB_C' : forall h sp x, QB h sp x -> QB h sp (sstep_C x).
+Proof. intros h sp x H. rewrite (QB_C h sp x H). exact H. Qed.
+
+Lemma QA_emit_never : forall h sp d s, QA h sp d s -> semit (bside d s) = bside d s -> True.
+Proof. auto. Qed.
+
+Lemma QB_of_QA : forall h sp d s,
+  QA h sp d s -> d_conn (bside d s) = true -> d_wready (bside d s) = true ->
+  d_lq (bside d s) = [] -> ahand d (b_apc s) = [] -> d_peer (bside d s) = d_peer (bside d s) ->
+  QB h sp (bside d s).
+Proof.
+  intros h sp d s [(E1 & E2 & E3 & E4 & E5 & E6 & E7 & E8 & E9) _ _ Heq _ _ _ _] Hc Hw Hq Ha _.
+  constructor; auto.
+  - intros p m E. rewrite E3 in E. discriminate.
+  - rewrite E3. discriminate.
+  - unfold shand_x, shand_r. rewrite E8, E7, E3, E4, E1, E2. cbn.
+    rewrite Hq, Ha in Heq. rewrite !app_nil_r in Heq. rewrite Heq. reflexivity.
+Qed.
+
+Ltac qa_fin :=
+  repeat match goal with
+  | H : _ /\ _ |- _ => destruct H
+  end;
+  repeat split; auto; intros; cbn in *; try discriminate; try congruence; auto.
+
+Lemma QInv_step_A : forall hi ho spi spo q s,
+  QInv hi ho spi spo s -> QInv hi ho spi spo (bstep_A (mkBC false q) s).
+Proof.
+  intros hi ho spi spo q s H. unfold QInv in *.
+  destruct (bdone s) eqn:Ed.
+  - unfold bstep_A. destruct (b_apc s); try discriminate. rewrite Ed. exact H.
+  - destruct H as (HI & HO).
+    pose proof HI as [(I1 & I2 & I3 & I4 & I5 & I6 & I7 & I8 & I9) Ic Ir Ie Iu Idr Ib5 Ip].
+    pose proof HO as [(O1 & O2 & O3 & O4 & O5 & O6 & O7 & O8 & O9) Oc Or Oe Ou Odr Ob5 Op].
+    unfold bstep_A. cbn [legacy_ctor].
+    destruct (b_apc s) eqn:Ea; try discriminate; try destruct d; cbn [bside] in *.
+    all: split_match.
+    all: cbn [bdone bset_a b_apc].
+    all: try (split; constructor; cbn; rewrite ?Ea in *; cbn in *; qa_fin; fail).
+Abort.
